@@ -26,6 +26,7 @@ def judge_results(prop, pairs, prefixes=None):
     hashes = set()
     nontrivial = set()
     proto_drift = []
+    unjudged = []
     info_drift = []
     ninfo = collections.Counter()
     for (case, res), v in zip(pairs, verdicts):
@@ -39,6 +40,11 @@ def judge_results(prop, pairs, prefixes=None):
         stats["outcome:" + res["outcome"]["r"]] += 1
         if v["dead"]:
             stats["bookkeeping_stopped"] += 1
+            if any(e["k"] == "END" and e.get("cat") == "loop_guard" for e in res["item"]["ev"]):
+                # the loop guard ended a run whose steps the reference could no longer explain (a C02 clause fired first): whether the
+                # guard was right is not judged then - say so instead of staying silent (C09 reads this counter)
+                stats["loop_guard_not_judged_after_bookkeeping_stopped"] += 1
+                unjudged.append(case.get("id"))
         seen = set()
         for l, clause in v["viol"]:
             clause_count[clause] += 1
@@ -57,6 +63,9 @@ def judge_results(prop, pairs, prefixes=None):
     stats["events"] = sum(len(i["ev"]) for i in items)
     for d in proto_drift[:3]:
         print(f"DRIFT request protocol clause={d['clause']} case={json.dumps(d['case'])[:120]} event={d['event']} (code and specification MosaikRef/ProtoStep differ; not a verdict)")
+    if prop == "C09" and unjudged:
+        print(f"DRIFT loop guard fired in {len(unjudged)} execution(s) whose steps the reference could not explain any more (clauses of C01 / C02 fired first, e.g. "
+              f"case={json.dumps(unjudged[0])[:100]}); the guard's verdict is not judged there - see the checks of those properties (not a verdict)")
     for d in info_drift[:3]:
         print(f"DRIFT information requests clause={d['clause']} case={json.dumps(d['case'])[:120]} event={d['event']} {d['detail'][:200]} (code and specification MosaikRef/RefInfo differ; not a verdict)")
     return findings, {
